@@ -17,8 +17,12 @@ STORE_ALGS = ["SHA-256", "MD5", "SHA-1", "SHA-384", "SHA-512"]
 def cfg_for(i, rng):
     """store configuration of the i-th history: mostly the default, the rest spread over algorithms/layouts"""
     if i % 3 == 0:
-        return dict(depth=3, width=2, store_alg="SHA-256")
-    return dict(depth=rng.choice([1, 2, 3, 4, 5]), width=rng.choice([1, 2, 3]), store_alg=rng.choice(STORE_ALGS))
+        cfg = dict(depth=3, width=2, store_alg="SHA-256")
+    else:
+        cfg = dict(depth=rng.choice([1, 2, 3, 4, 5]), width=rng.choice([1, 2, 3]), store_alg=rng.choice(STORE_ALGS))
+    if i % 4 == 1:
+        cfg["relative"] = True      # the store path given relative to the working directory
+    return cfg
 
 
 def describe(history, idx, chans):
